@@ -3,39 +3,39 @@ package main
 // VC generation: SSA (NaiveForm) of one function -> ordered facts + obligations.
 
 import (
-	"strconv"
-	"sync"
-	"os"
 	"fmt"
 	"go/constant"
 	"go/token"
 	"go/types"
+	"os"
 	"sort"
+	"strconv"
 	"strings"
+	"sync"
 
 	"golang.org/x/tools/go/ssa"
 )
 
 type Obligation struct {
-	Name     string // func#kind[label]
-	Kind     string
-	Goal     string // formula that must be valid under facts[:NFacts]
-	NFacts   int
-	Blk      *ssa.BasicBlock // block being processed when the obligation was generated (nil: none)
-	Pos      token.Position
-	Desc     string
-	Cover    bool // cover obligation: (facts && Goal) must be SAT
-	Clause   *Clause
-	Gen      *Gen
-	Extra    []string // extra hypotheses
-	FuncKey  string
-	Mode     string
-	Props    []string
+	Name       string // func#kind[label]
+	Kind       string
+	Goal       string // formula that must be valid under facts[:NFacts]
+	NFacts     int
+	Blk        *ssa.BasicBlock // block being processed when the obligation was generated (nil: none)
+	Pos        token.Position
+	Desc       string
+	Cover      bool // cover obligation: (facts && Goal) must be SAT
+	Clause     *Clause
+	Gen        *Gen
+	Extra      []string // extra hypotheses
+	FuncKey    string
+	Mode       string
+	Props      []string
 	LightWeak  bool // the reduced goal is a heuristic strengthening (existential witnesses): no early stop on its models
 	LightGoal  string
 	LightExtra []string
-	Results  []*SV  // result values at the return (post obligations)
-	St       *State // state at the obligation point
+	Results    []*SV  // result values at the return (post obligations)
+	St         *State // state at the obligation point
 }
 
 type transError struct{ msg string }
@@ -56,53 +56,54 @@ func shortFile(f string) string {
 }
 
 type Gen struct {
-	lentAt map[ssa.Value]map[ssa.Instruction]bool // allocation -> calls that borrow it
-	escCache map[ssa.Value][]ssa.Instruction // allocation -> uses through which its reference may escape
-	applyLines map[int][]*AtCall // source line -> lemma applications (apply-at) and assertions (assert-at)
+	lentAt     map[ssa.Value]map[ssa.Instruction]bool // allocation -> calls that borrow it
+	escCache   map[ssa.Value][]ssa.Instruction        // allocation -> uses through which its reference may escape
+	applyLines map[int][]*AtCall                      // source line -> lemma applications (apply-at) and assertions (assert-at)
 	assertedAt map[*AtCall]bool
-	loopEntry map[*loopInfo]*State // state in which each loop was entered
-	sliceLos []string // lower bounds of slice expressions seen so far (instantiation candidates)
+	loopEntry  map[*loopInfo]*State // state in which each loop was entered
+	sliceLos   []string             // lower bounds of slice expressions seen so far (instantiation candidates)
 	*Ctx
-	fn      *ssa.Function
-	con     *Contract
-	key     string
-	facts   []string
-	obls    []*Obligation
-	vals    map[ssa.Value]*SV
-	exit    map[*ssa.BasicBlock]*State
-	reach   map[*ssa.BasicBlock]string
-	edgeOK  map[[2]int]string // edge (from,to) -> condition term (conjoined with reach[from])
-	loops   []*loopInfo
-	loopOf  map[*ssa.BasicBlock]*loopInfo // header -> loop
-	entry   *State
-	paramSV map[string]*SV
-	safeCtr map[string]int
-	havocd  []string // unmodelled things (PA)
-	unmodelled map[string]bool
-	pa      bool
-	curBlock *ssa.BasicBlock
-	factBlk   map[int]*ssa.BasicBlock
-	visMu     sync.Mutex
-	reachMu   sync.Mutex
-	valBlk    map[string]*ssa.BasicBlock   // SSA value constant -> block that computes it
-	factVals  map[int][]*ssa.BasicBlock    // fact -> blocks of the SSA value constants it mentions (lazily)
-	reachMemo map[*ssa.BasicBlock]map[*ssa.BasicBlock]bool
-	retCount int
-	allocsByName map[string][]*ssa.Alloc
-	backEdges map[[2]int]bool
-	loopDec map[*loopInfo]string
-	loopHeadState map[*loopInfo]*State
-	nInstr, nHavoc int
-	retOrd map[*ssa.Return]int
-	droppable map[int]bool
-	constLen  map[string]int64 // SMT names of slice values whose length is a known constant
-	maskBit   map[string]string // SMT names of values of the form 1<<k -> k
-	hyps      []*hyp
-	seenIdx   []string
-	seenSet   map[string]bool
-	seenKeys  []string // string terms used as map keys
-	seenKey   map[string]map[string]bool // index term -> element heaps it was used on
-	lockHook func(key string, common *ssa.CallCommon, args []*SV, st *State, reach string, pos token.Pos)
+	fn               *ssa.Function
+	con              *Contract
+	key              string
+	facts            []string
+	obls             []*Obligation
+	vals             map[ssa.Value]*SV
+	exit             map[*ssa.BasicBlock]*State
+	reach            map[*ssa.BasicBlock]string
+	edgeOK           map[[2]int]string // edge (from,to) -> condition term (conjoined with reach[from])
+	loops            []*loopInfo
+	loopOf           map[*ssa.BasicBlock]*loopInfo // header -> loop
+	entry            *State
+	paramSV          map[string]*SV
+	safeCtr          map[string]int
+	havocd           []string // unmodelled things (PA)
+	unmodelled       map[string]bool
+	pa               bool
+	curBlock         *ssa.BasicBlock
+	factBlk          map[int]*ssa.BasicBlock
+	visMu            sync.Mutex
+	reachMu          sync.Mutex
+	valBlk           map[string]*ssa.BasicBlock // SSA value constant -> block that computes it
+	factVals         map[int][]*ssa.BasicBlock  // fact -> blocks of the SSA value constants it mentions (lazily)
+	reachMemo        map[*ssa.BasicBlock]map[*ssa.BasicBlock]bool
+	retCount         int
+	allocsByName     map[string][]*ssa.Alloc
+	backEdges        map[[2]int]bool
+	loopDec          map[*loopInfo]string
+	loopHeadState    map[*loopInfo]*State
+	loopStoreUnknown map[*loopInfo]bool
+	nInstr, nHavoc   int
+	retOrd           map[*ssa.Return]int
+	droppable        map[int]bool
+	constLen         map[string]int64  // SMT names of slice values whose length is a known constant
+	maskBit          map[string]string // SMT names of values of the form 1<<k -> k
+	hyps             []*hyp
+	seenIdx          []string
+	seenSet          map[string]bool
+	seenKeys         []string                   // string terms used as map keys
+	seenKey          map[string]map[string]bool // index term -> element heaps it was used on
+	lockHook         func(key string, common *ssa.CallCommon, args []*SV, st *State, reach string, pos token.Pos)
 }
 
 type loopInfo struct {
@@ -152,7 +153,7 @@ func newGen(ctx *Ctx, fn *ssa.Function, con *Contract) *Gen {
 		vals: map[ssa.Value]*SV{}, exit: map[*ssa.BasicBlock]*State{}, reach: map[*ssa.BasicBlock]string{},
 		edgeOK: map[[2]int]string{}, loopOf: map[*ssa.BasicBlock]*loopInfo{}, paramSV: map[string]*SV{},
 		safeCtr: map[string]int{}, unmodelled: map[string]bool{}, allocsByName: map[string][]*ssa.Alloc{}, constLen: map[string]int64{}, maskBit: map[string]string{},
-		backEdges: map[[2]int]bool{}, loopDec: map[*loopInfo]string{}, loopHeadState: map[*loopInfo]*State{}}
+		backEdges: map[[2]int]bool{}, loopDec: map[*loopInfo]string{}, loopHeadState: map[*loopInfo]*State{}, loopStoreUnknown: map[*loopInfo]bool{}}
 	g.pa = con.Level == "PA"
 	ctx.etypeSorts, ctx.mtypeKeys = sharedElemSorts(ctx, fn)
 	ctx.rawFact = g.addFact
@@ -1024,7 +1025,9 @@ func (g *Gen) loopHead(li *loopInfo, st *State, reach string) *State {
 	}
 	if all {
 		g.havocAll(ns, "loop")
-		g.loopFrame(li, st, ns, heaps)
+		if !g.loopStoreUnknown[li] {
+			g.loopFrame(li, st, ns, heaps)
+		}
 	} else {
 		for _, k := range sortedKeys(heaps) {
 			g.heapGet(ns, k, g.heapSortsM[k])
@@ -1209,6 +1212,7 @@ func (g *Gen) loopWrites(li *loopInfo) (cells map[*ssa.Alloc]bool, heaps map[str
 		root, keys, ok := g.addrRoot(addr)
 		if !ok {
 			all = true
+			g.loopStoreUnknown[li] = true // a store whose target heap is not known: no loop frame
 			return
 		}
 		switch r := root.(type) {
